@@ -6,6 +6,7 @@
  * read-only classifiers, at least holds a NUL.
  *   FN 1..7  strisalphanumeric_s strisascii_s strisdigit_s strishex_s strislowercase_s strismixedcase_s strisuppercase_s
  *   FN 10 strzero_s  11 strset_s  12 strtolowercase_s  13 strtouppercase_s  14 strnterminate_s
+ *   FN 15 strnset_s
  *   FN 20 strfirstchar_s  21 strlastchar_s   (the returned pointer is the witness: complete C10 statement for the found case)
  * C02 (loads), C01 (stores / frame), C05; C03/C08/C06 clauses where a quantifier-free statement exists.
  * The complete classification result of FN 1..7 ("every character before the terminator is in the class")
@@ -14,7 +15,7 @@
 #include "verif.h"
 #include "ghost_scan.h"
 
-char *g_dest0; size_t g_dmax0, g_ssz, g_nul, gk, gj; int g_has_nul, g_writer; char g_old_k, g_old_j;
+char *g_dest0; size_t g_dmax0, g_ssz, g_nul, gk, gj, g_n0; int g_has_nul, g_writer; char g_old_k, g_old_j;
 int g_hcalls; int g_herr;
 void invoke_safe_str_constraint_handler(const char *restrict m, void *restrict p, errno_t e)
 { g_hcalls++; g_herr = e; }
@@ -140,6 +141,24 @@ __CPROVER_ensures((VALID && gk == R && R + 1 < dmax) ==> g_old_k == 0) /* @C06 *
 __CPROVER_ensures((dest != NULL && gk < g_ssz && !(VALID && gk == R)) ==> AT(gk) == g_old_k) /* @C01 */
 ;
 #define CALL(d, m, b) (void)_strnterminate_s_chk(d, m, b)
+#elif FN == 15
+#define WRITER 1
+static int g_value;
+errno_t _strnset_s_chk(char *restrict dest, rsize_t dmax, int value, rsize_t n, const size_t destbos)
+COMMON_REQ
+__CPROVER_requires(n == g_n0)
+__CPROVER_assigns(VALID: __CPROVER_object_upto(dest, dmax); g_hcalls, g_herr)
+__CPROVER_ensures(R == EOK ? g_hcalls == 0 : (g_hcalls == 1 && g_herr == R)) /* @C05 */
+__CPROVER_ensures(!VALID ==> R == (dest == NULL ? ESNULLP : dmax == 0 ? ESZEROL : dmax > RSIZE_MAX_STR ? ESLEMAX : EOVERFLOW)) /* @C05 */
+__CPROVER_ensures((VALID && (unsigned)value > 255) ==> R == ESLEMAX) /* @C05 */
+__CPROVER_ensures((VALID && (unsigned)value <= 255) ==> R == (n > dmax ? ESNOSPC : EOK)) /* @C05 */
+__CPROVER_ensures((R == EOK && gk < dmax && gk < n) ==> (AT(gk) == (char)value || AT(gk) == 0)) /* @C06 */
+__CPROVER_ensures((R == EOK && gk < dmax && gk >= n) ==> (AT(gk) == g_old_k || AT(gk) == 0)) /* @C06 */
+__CPROVER_ensures((R == EOK && gk < dmax && g_old_k == 0) ==> AT(gk) == 0) /* @C03 */
+__CPROVER_ensures((R != EOK && dest != NULL && gk < g_ssz) ==> AT(gk) == g_old_k) /* @C05 */
+;
+#define CALL(d, m, b) (void)_strnset_s_chk(d, m, g_value, g_n0, b)
+
 #elif FN == 20 || FN == 21
 #define WRITER 0
 static char g_c; static char *g_res;
